@@ -8,7 +8,7 @@ Only the shapes are modelled (which arm runs the closure, what is wrapped in wha
 the rules look at.  Anything not recognised is left as the call it was (the closure then stays opaque, as before).
 
     Result:  map  map_err  and_then  or_else  unwrap_or_else  is_ok_and  is_err_and  map_or  inspect  inspect_err
-    Option:  map  and_then  or_else  ok_or_else  unwrap_or_else  is_some_and  is_none_or  map_or
+    Option:  map  and_then  or_else  ok_or_else  unwrap_or_else  is_some_and  is_none_or  map_or  map_or_else  filter  inspect
     bool:    then
     Iterator (consumers, as loops over `next`):  for_each  try_for_each  any  all  find_map  fold  try_fold
 """
@@ -145,6 +145,16 @@ def _callee_of(fx, fn, t, ai):
         return None
     ty = fn.locals[pl["l"]]["ty"]
     fv = [x for x in (t.get("fn") or {}).get("fnvals", []) if x in fx.fns and fx.fns[x].is_closure]
+    import re as _re
+    generic = bool(_re.match(r"^(&mut |&)?[A-Z][A-Za-z0-9]*$", ty))
+    if generic:
+        # inside an inlined generic helper (`fn each<F: FnMut(..)>(.., f: F) { it.try_for_each(f) }`) the callable has
+        # the parameter's type; which closure it is was resolved by provenance (inline.resolve_closures)
+        import inline as _inl
+        c_ = _inl.closure_of(fx, fn, a)
+        if c_ is not None and c_ in fx.fns:
+            return {"closure": True, "path": c_, "op": a}
+        return None
     if "closure" not in ty:
         return None
     if len(fv) > 1:
@@ -345,6 +355,64 @@ def _expand_one(fx, fn, bi, t, blocks, locals_):
         blocks[bi]["term"] = {"k": "goto", "target": b0, "span": t["span"], "expanded": o}
         return True
 
+    # ---------------- two-closure and by-reference Option/Result combinators ----------------
+    if o in (O + "map_or_else", R + "map_or_else") and len(args) == 3:
+        is_res = o.startswith(R)
+        dflt = _callee_of(fx, fn, t, 1)
+        cal = _callee_of(fx, fn, t, 2)
+        st = start("res" if is_res else "opt")
+        if cal is None or dflt is None or st is None:
+            return False
+        r, ga, b0 = st
+        if is_res:
+            hit_b, miss_b = B.block(), B.block()
+            B.switch_discr(b0, r, RES, RES_V, tys[0], {"Ok": hit_b, "Err": miss_b})
+            x, e = B.local(ga[0]), B.local(ga[1])
+            B.payload(hit_b, x, r, "Ok")
+            B.payload(miss_b, e, r, "Err")
+            B.call_fnlike(hit_b, cal, [{"mv": {"l": x}}], [ga[0]], dest, dty, end)
+            B.call_fnlike(miss_b, dflt, [{"mv": {"l": e}}], [ga[1]], dest, dty, end)
+        else:
+            hit_b, miss_b = B.block(), B.block()
+            B.switch_discr(b0, r, OPT, OPT_V, tys[0], {"Some": hit_b, "None": miss_b})
+            x = B.local(ga[0])
+            B.payload(hit_b, x, r, "Some")
+            B.call_fnlike(hit_b, cal, [{"mv": {"l": x}}], [ga[0]], dest, dty, end)
+            B.call_fnlike(miss_b, dflt, [], [], dest, dty, end)
+        blocks[bi]["term"] = {"k": "goto", "target": b0, "span": t["span"], "expanded": o}
+        return True
+    if o in (O + "filter", O + "inspect") and len(args) == 2:
+        m = o[len(O):]
+        cal = _callee_of(fx, fn, t, 1)
+        st = start("opt")
+        if cal is None or st is None:
+            return False
+        r, (T,), b0 = st
+        some_b, none_b = B.block(), B.block()
+        B.switch_discr(b0, r, OPT, OPT_V, tys[0], {"Some": some_b, "None": none_b})
+        ref = B.local("&" + T)
+        B.stmt(some_b, ref, {"k": "ref", "mut": False, "pl": {"l": r, "p": [{"dc": "Some"}, {"f": 0}]}})
+        if m == "filter":
+            bb = B.local("bool")
+            k = B.block()
+            B.call_fnlike(some_b, cal, [{"mv": {"l": ref}}], ["&" + T], bb, "bool", k)
+            keep, drop = B.block(), B.block()
+            B.switch_bool(k, bb, keep, drop)
+            B.stmt(keep, dest, {"k": "use", "op": {"mv": {"l": r}}})
+            B.goto(keep, end)
+            B.wrap(drop, dest, OPT, "None", None)
+            B.goto(drop, end)
+        else:
+            u = B.local("()")
+            k = B.block()
+            B.call_fnlike(some_b, cal, [{"mv": {"l": ref}}], ["&" + T], u, "()", k)
+            B.stmt(k, dest, {"k": "use", "op": {"mv": {"l": r}}})
+            B.goto(k, end)
+        B.stmt(none_b, dest, {"k": "use", "op": {"mv": {"l": r}}})
+        B.goto(none_b, end)
+        blocks[bi]["term"] = {"k": "goto", "target": b0, "span": t["span"], "expanded": o}
+        return True
+
     # ---------------- bool::then ----------------
     if o == "core::bool::<impl bool>::then" and len(args) == 2:
         cal = _callee_of(fx, fn, t, 1)
@@ -540,8 +608,43 @@ def _expand_one(fx, fn, bi, t, blocks, locals_):
 _cache = {}
 
 
+def _expand_nocache(fx, fn):
+    """Expansion of an already inlined view (second round: combinators whose callable became known only after the
+    generic helper around them was inlined)."""
+    blocks = copy.deepcopy(fn.blocks)
+    locals_ = list(fn.locals)
+    tmp = facts.Fn(dict(fn.raw, blocks=blocks, locals=locals_), fn.crate)
+    tmp.fx = fx
+    tmp.inlined_from = fn.inlined_from
+    n = 0
+    for bi in range(len(fn.blocks)):
+        b = blocks[bi]
+        t = b["term"]
+        if t["k"] != "call" or b.get("cleanup"):
+            continue
+        o = (t.get("fn") or {}).get("orig") or ""
+        if not (o.startswith((R, O, I)) or o == "core::bool::<impl bool>::then"):
+            continue
+        try:
+            if _expand_one(fx, tmp, bi, t, blocks, locals_):
+                n += 1
+        except (KeyError, IndexError, ValueError, TypeError):
+            continue
+    if not n:
+        return fn
+    raw = dict(fn.raw)
+    raw["blocks"] = blocks
+    raw["locals"] = locals_
+    out = facts.Fn(raw, fn.crate)
+    out.fx = fx
+    out.inlined_from = fn.inlined_from
+    return out
+
+
 def expanded(fx, fn):
     key = (id(fx), fn.path)
+    if getattr(fn, "inlined_from", None) is not None:
+        return _expand_nocache(fx, fn)
     if key in _cache:
         return _cache[key]
     hit = False
